@@ -222,8 +222,12 @@ struct Flags {
     int  groups_mask{0};
 };
 
-__int128 check_fit(__int128 v) { // results must fit 64 bits (signed or unsigned)
-    if (v > (__int128)UINT64_MAX || v < (__int128)INT64_MIN) {
+// Results of an operation must fit 64 bits. The library keeps three number kinds and a result is of the signed kind as soon
+// as a signed operand took part (negative literal, signed variable, a difference), so a computed value above INT64_MAX is
+// only representable when everything was unsigned - which the reference does not track. Computed values above INT64_MAX
+// are therefore outside the domain (literals and variables up to UINT64_MAX are not computed values and stay inside).
+__int128 check_fit(__int128 v) {
+    if (v > (__int128)INT64_MAX || v < (__int128)INT64_MIN) {
         throw Overflow{};
     }
     return v;
